@@ -1,6 +1,6 @@
 (* Judge of the L0 tie: the whole-formatter model Fmt0.format0 (extracted) against the binary, byte for byte; and the source
    text against the tree (erasure and comment census), so that the theorems about the tree speak about the text that was formatted.
-   L0 <id> <windows> <spaces> <indent width> <quote style>/<call_parentheses>/<space_after_function_names>/<collapse_simple_statement> <tree> <source hex> <status> <output hex> *)
+   L0 <id> <windows> <spaces> <indent width> <quote style>/<call_parentheses>/<space_after_function_names>/<collapse_simple_statement> <tree> <source hex> <status> <output hex> <hex of the library's second pass on that output, or its status> *)
 open Util
 open Fmt0
 let uop = function "-" -> Expr.Neg | "not" -> Expr.Not | "#" -> Expr.Len | "~" -> Expr.BNot | s -> failwith ("uop " ^ s)
@@ -42,9 +42,11 @@ and els = function
 
 let max_samples = try int_of_string (Sys.getenv "L0_SAMPLES") with _ -> 3
 let records = ref 0 and bad = ref 0 and changed = ref 0 and samples = ref 0 and bytes = ref 0
+(* C06: records whose tree meets the premise of Fmt0Idem.norm0_idempotent; records the library changes on a second pass; those the model predicts *)
+let premise = ref 0 and nonidem = ref 0 and predicted = ref 0
 let report k id = incr bad; Printf.printf "BAD %s %s\n" k id
 let handle line = match words line with
-  | ["L0"; id; win; spaces; width; style; tree; src; status; out] ->
+  | ["L0"; id; win; spaces; width; style; tree; src; status; out; out2] ->
     incr records;
     if status <> "ok" then report ("format-" ^ status) id
     else begin
@@ -70,9 +72,24 @@ let handle line = match words line with
         bytes := !bytes + L.length o;
         if o <> unhex src then incr changed;
         if model <> o then (report "binary-differs-from-the-L0-model" id; if !samples < max_samples && win = "0" && spaces = "0" then (incr samples; Printf.printf "SAMPLE %s model=%s\n" id (hex model)))
+        else begin
+          (* the second pass: the library on its own output against the model on the tree it wrote.  Where the two passes of the
+             model differ the premise of the idempotence theorem fails (a double minus): the listed finding, counted; a second pass
+             of the library that differs from the model's is a disagreement *)
+          let gf = guard_free p in
+          if gf then incr premise;
+          if Stdlib.String.length out2 = 0 || Stdlib.String.get out2 0 <> '#' then report ("second-pass-" ^ out2) id
+          else begin
+            let o2 = unhex out2 and model2 = format0 cfg (norm0 cfg p) in
+            if o2 <> o then incr nonidem;
+            if model2 <> model then (incr predicted; Printf.printf "NONIDEM %s\n" id);
+            if model2 <> o2 then report "second-pass-differs-from-the-L0-model" id
+            else if gf && o2 <> o then report "second-pass-differs-under-the-premise-of-the-idempotence-theorem" id
+          end
+        end
     end
   | "UNPARSED" :: id :: _ -> report "generated-program-does-not-parse" id
   | "STATS" :: _ -> print_endline line
   | [] -> ()
   | _ -> report "unreadable-record" "?"
-let () = iter_lines handle; Printf.printf "SUMMARY records=%d nontrivial=%d output_bytes=%d bad=%d\n" !records !changed !bytes !bad
+let () = iter_lines handle; Printf.printf "SUMMARY records=%d nontrivial=%d output_bytes=%d idempotence_premise_holds=%d second_pass_differs=%d second_pass_difference_predicted=%d bad=%d\n" !records !changed !bytes !premise !nonidem !predicted !bad
